@@ -36,7 +36,7 @@ claim('C01',
       'through the real mapper, and every real run (scenario runs and random larger ones) is validated '
       'event by event (chunking, cells examined per node, final records) as a behaviour of MapRun.',
       'Trusted: TLC, harness projection of hook events/JSON output. Known findings F10 (single top-level '
-      'node) and F4 (irrelevant marker key) are reported as KNOWN-FINDING. Bounded model; real runs '
+      'node), F4 (irrelevant marker key) and F26 (non-leaf node without children) are reported as KNOWN-FINDING. Bounded model; real runs '
       'sampled beyond it.',
       'TLA+ model MapRun.tla checked by TLC; scenarios from the model replayed into run_mapping; trace '
       'validation of hook events + output (MapRun_Trace.tla)', 'DESIGN.md section 4 C01')
